@@ -789,6 +789,7 @@ func c13RawKeys(c *oracleCtx) {
 }
 
 func c13Oracle(c *oracleCtx) {
+	c09DeriveTwice(c) // every export (Slice, Dict, Native*, Keys, Values ...) taken twice is independent: also of empties
 	c13ExportsAreGet(c)
 	c13RawKeys(c)
 	trees := smallTrees()
